@@ -21,7 +21,8 @@ ASSUMPTIONS = ["cell names are non-empty printable ASCII without '/' and not '.'
 MIN_NONTRIVIAL = {"quick": 80, "thorough": 800}
 REQUIRED_PROBES = ["create_exit"]
 REQUIRED_FEATURES = ["bins:common", "bins:per-cell", "cells:has-empty", "cells:1", "mode:symm", "mode:square",
-                     "create:ordered", "create:ordered-false-flag", "names:natsort-trap"]
+                     "create:ordered", "create:ordered-false-flag", "names:natsort-trap", "dtypes:count-float",
+                     "columns:extra"]
 
 CELL_NAMES = ["c2", "c10", "c1", "cell_A.1", "GSM123-rep.2", "10", "2", "sample 3", "Cell", "cell", "x.y.z", "a-b_c",
               "c02", "c010"]
@@ -60,6 +61,12 @@ def one_file(ctx, cid, rng, idx):
         P = gen.gen_pixels(rng, n, symm, pat)
         P = {kk: v + k for kk, v in P.items()}          # pairwise different values
         cells[nm] = P
+    # value dtypes: default int32 counts, or float counts with fractional parts (+ an extra column)
+    float_counts = bool(rng.random() < 0.4)
+    extra_col = bool(rng.random() < 0.3)
+    if float_counts:
+        cells = {nm: {kk: v + float(int(rng.integers(1, 8))) / 8.0 for kk, v in P.items()} for nm, P in cells.items()}
+    scores = {nm: {kk: float(int(rng.integers(-40, 40))) / 8.0 for kk in P} for nm, P in cells.items()}
     per_cell_bins = bool(rng.random() < 0.4)
     ordered = bool(rng.random() < 0.5)
     bins = gen.bt_frame(bt)
@@ -77,7 +84,8 @@ def one_file(ctx, cid, rng, idx):
             bins_arg[nm] = b
     pix_arg = {}
     for nm, P in cells.items():
-        df = gen.pixels_frame(P)
+        df = gen.pixels_frame(P, {"score": scores[nm]} if extra_col else None,
+                              count_dtype=np.float64 if float_counts else None)
         if ordered:
             pix_arg[nm] = df if rng.random() < 0.5 else iter(gen.chunk_frames(df, gen.random_cuts(rng, len(df), 4)))
         else:
@@ -99,6 +107,12 @@ def one_file(ctx, cid, rng, idx):
             kw["triucheck"] = False
         if not ordered:
             kw["mergebuf"] = int([3, 10**6][int(rng.integers(2))])
+        if float_counts:
+            kw["dtypes"] = {"count": np.float64}
+            c.feature("dtypes:count-float")
+        if extra_col:
+            kw["columns"] = ["count", "score"]
+            c.feature("columns:extra")
         cooler.create_scool(path, bins_arg, pix_arg, **kw)
         listing = cooler.fileops.list_scool_cells(path)
         c.check(sorted(listing) == sorted(f"/cells/{nm}" for nm in names), "cell-listing-differs",
@@ -136,6 +150,11 @@ def one_file(ctx, cid, rng, idx):
             c.check(got == P and list(got) == sorted(P), "cell-pixels-differ",
                     f"cell {nm} does not read back as the pixel table given for it",
                     lambda: {"got": sorted(got.items())[:20], "want": sorted(P.items())[:20]})
+            if extra_col:
+                c.check("score" in pt.columns and pt["score"].tolist() == [scores[nm][kk] for kk in sorted(P)],
+                        "cell-extra-column-differs", f"cell {nm}: extra pixel column differs from the one given")
+            c.check(str(pt["count"].dtype) == ("float64" if float_counts else "int32"), "cell-count-dtype",
+                    f"cell {nm}: count stored as {pt['count'].dtype}")
             m = clr.matrix(balance=False)[:, :]
             c.check(np.array_equal(m, model.dense(P, n, symm)), "cell-matrix-differs", f"cell {nm}: full matrix differs")
             bb = clr.bins()[["chrom", "start", "end"]][:]
